@@ -462,11 +462,13 @@ class Engine:
                 if 'ReifyFnPointer' in k or 'ClosureFnPointer' in k: return v
                 return v
             if k == 'IntToFloat':
+                if hasattr(v, 'value') and type(v).__name__ == 'NumTok': return F(v.value)
                 if isinstance(v, bool): v = int(v)
                 if isinstance(v, int): return fconst(v)
                 if z3.is_int(v): return F(z3.ToReal(v))
                 return F(v)
             if k == 'IntToInt':
+                if type(v).__name__ == 'NumTok': return v.value
                 if isinstance(v, bool): return int(v)
                 if isz(v) and z3.is_bool(v): return z3.If(v, 1, 0)
                 if isinstance(v, Enum): return v.disc
@@ -858,6 +860,10 @@ class Engine:
         g = strip_generics(f)
         if g in s.bodies: return g
         if g in s.alias: return s.alias[g]
+        m = re.match(r'^([\w:]+::)<impl [^>]*>::(\w+)$', func)
+        if m:
+            c = [n for n in s.bodies.keys() if n.startswith(m.group(1) + '<impl at') and n.endswith('::' + m.group(2))]
+            if len(c) == 1: return c[0]
         # <Type as Trait>::method[::nested item]
         m = re.match(r'^<(.+) as ([\w:]+)(?:<.*>)?>::(\w+)((?:::.+)?)$', g)
         if m:
